@@ -160,6 +160,15 @@ func init() {
 				}
 			}
 			discard := dst == q("gv.io.Discard")
+			if info, ok := e.ifaces[dst]; ok && isMemBuffer(info.Dyn) {
+				// copying into a memory buffer holds everything the source delivers (C20/C10): that amount must be bounded
+				if limited {
+					e.ob(f, "alloc", "io.CopyN into a memory buffer holds the whole amount: "+e.w.srcText(in.Pos(), in), f.safety, pc, fmt.Sprintf("(< %s 2147483648)", e.scalar(args[2])), in.Pos())
+				} else {
+					left := e.ghost(h, "rd_left")
+					e.ob(f, "alloc", "io.Copy into a memory buffer holds whatever the source still delivers: "+e.w.srcText(in.Pos(), in), f.safety, pc, fmt.Sprintf("(< (select %s %s) 2147483648)", left, src), in.Pos())
+				}
+			}
 			if !discard {
 				f.writerPre(h, dst, pc, in)
 			}
@@ -1002,6 +1011,17 @@ func (f *frame) implHavoc(h *Heap, key string, arg Val) {
 		}
 		f.havocMods(h, m2, all)
 	}
+}
+
+// isMemBuffer: *bytes.Buffer or *strings.Builder (a destination that keeps in memory everything written to it).
+func isMemBuffer(t types.Type) bool {
+	if p, ok := t.(*types.Pointer); ok {
+		if n, ok := p.Elem().(*types.Named); ok && n.Obj().Pkg() != nil {
+			full := n.Obj().Pkg().Path() + "." + n.Obj().Name()
+			return full == "bytes.Buffer" || full == "strings.Builder"
+		}
+	}
+	return false
 }
 
 func pureExternal(name string) bool {
